@@ -15,7 +15,7 @@ RULE = (
     "triples and _counter). OrderedSet and IdentitySet: every binary method and operator alias x every "
     "argument kind (set, dict, list with duplicates, iterator, other OrderedSet/IdentitySet, the receiver "
     "itself) x all argument sequences of length <= 3 over 3 elements x 3-4 receivers; all histories of "
-    "length <= 3 over a 12-letter alphabet (quick: a seeded half of the length-3 ones); random histories "
+    "length <= 3 over an 11-14-letter alphabet (quick: a seeded third of the length-3 ones); random histories "
     "of length 4-8. immutabledict: all argument tuples of length <= 2 (8 argument shapes) x 3 receivers "
     "for union/merge_with, all 9 mutators, |, reflected |, random histories. LRUCache: all histories of "
     "length <= 3 over 9 operations for 2 configurations, random histories of length <= 10 for capacities "
@@ -289,7 +289,7 @@ def gen_cases(rng, tier):
     # all short histories
     for n in (1, 2, 3):
         for ops in itertools.product(_O_ALPHA, repeat=n):
-            if n == 3 and not thorough and rng.random() < 0.5:
+            if n == 3 and not thorough and rng.random() < 0.65:
                 continue
             cases.append(_ocase([K_LIST, [1, 2]], [list(o) for o in ops] + [[8]], "oset-hist"))
     for _ in range(4000 if thorough else 350):
@@ -308,10 +308,12 @@ def gen_cases(rng, tier):
         for a in iargs_small:
             for b in range(4):
                 for f in (2, 3):
+                    if f == 3 and a[0] in (IK_LIST, IK_ITER) and len(a[1]) > 1 and not thorough:
+                        continue  # operator with a non-IdentitySet: TypeError whatever the content
                     cases.append(_icase(_IVALS, base, [[8, b, f, 0, a], [6]], "iset-inplace"))
     for n in (1, 2, 3):
         for ops in itertools.product(_I_ALPHA, repeat=n):
-            if n == 3 and not thorough and rng.random() < 0.5:
+            if n == 3 and not thorough and rng.random() < 0.65:
                 continue
             cases.append(_icase(_IVALS, [0, 2], [list(o) for o in ops] + [[6]], "iset-hist"))
     for _ in range(3000 if thorough else 250):
@@ -324,7 +326,7 @@ def gen_cases(rng, tier):
     for s in selves:
         for n in (0, 1, 2, 3):
             for others in itertools.product(_D_ARGS, repeat=n):
-                if n == 3 and not thorough and rng.random() < 0.6:
+                if n == 3 and not thorough and rng.random() < 0.75:
                     continue
                 cases.append({"in": [IDICT, [s, [[1, 0, n % 2, [list(o) for o in others]], [6]]]], "kind": "idict-union"})
         for w in range(9):
@@ -339,7 +341,7 @@ def gen_cases(rng, tier):
     for cap, tn, td in ((1, 1, 2), (2, 0, 1)):
         for n in (1, 2, 3):
             for ops in itertools.product(_L_ALPHA, repeat=n):
-                if n == 3 and not thorough and rng.random() < 0.5:
+                if n == 3 and not thorough and rng.random() < 0.65:
                     continue
                 cases.append({"in": [LRU, [cap, tn, td, 1, [list(o) for o in ops] + [[5]]]], "kind": "lru-hist"})
     for _ in range(3000 if thorough else 350):
@@ -734,13 +736,31 @@ def _impl_lru(p):
                 ret = [1, len(c)]
         except (KeyError, IndexError, ValueError, TypeError) as e:
             ret = [3, _exc_code(e)]
+        except _Hang:
+            trace.append([[7], dump()])  # the while loop of _manage_size did not terminate
+            break
         trace.append([ret, dump()])
     return trace
 
 
+class _Hang(Exception):
+    pass
+
+
+def _alarm(signum, frame):
+    raise _Hang("operation did not finish within the step time limit")
+
+
 def impl(c):
+    import signal
+
     fam, p = c["in"]
-    return [_impl_oset, _impl_iset, _impl_idict, _impl_lru][fam](p)
+    signal.signal(signal.SIGALRM, _alarm)
+    signal.setitimer(signal.ITIMER_REAL, 4.0)  # a mutated loop must not hang the whole check
+    try:
+        return [_impl_oset, _impl_iset, _impl_idict, _impl_lru][fam](p)
+    finally:
+        signal.setitimer(signal.ITIMER_REAL, 0)
 
 
 # ------------------------------------------------------------------ direct property oracle
@@ -1017,6 +1037,8 @@ def _oracle_lru(p, trace):
     present = []  # keys the cache may still hold, least recently used first
     for i, (op, (ret, (rows, counter))) in enumerate(zip(ops, trace)):
         t = op[0]
+        if ret == [7]:
+            return "LRUCache step %d (%s): _manage_size did not terminate" % (i, op)
         keys = [r[0] for r in rows]
         if len(set(keys)) != len(keys):
             return "LRUCache step %d: key stored twice %s" % (i, keys)
